@@ -172,6 +172,8 @@ Settle(S) == IF S.k = "Q" THEN Resolve(S, <<>>).t ELSE IF S.k = "QF" THEN Resolv
 
 \* ---------------------------------------------------------------- bounds of explicit type arguments
 Plain(a) == IF a.k = "W" /\ a.a # <<>> THEN a.a[1] ELSE a
+RECURSIVE HasVarNamed(_, _)
+HasVarNamed(t, x) == (t.k = "V" /\ t.n = x) \/ \E j \in DOMAIN t.a : HasVarNamed(t.a[j], x)
 RECURSIVE BadBounds(_)
 BadBounds(T) ==   \* set of <<class, param>> whose argument violates the declared bound, anywhere inside T
   IF T.k \in {"W", "V"} THEN (IF T.a = <<>> THEN {} ELSE BadBounds(T.a[1]))
@@ -182,7 +184,9 @@ BadBounds(T) ==   \* set of <<class, param>> whose argument violates the declare
                                                       /\ ~(T.a[j].k = "W" /\ T.a[j].n \in {"in", "star"})
                                                       /\ ~Sub(Plain(T.a[j]), Subst(ps[j].b[1], pm))}}
        \cup UNION {BadBounds(T.a[j]) : j \in DOMAIN T.a}
-ChkB(T, x) == {<<p, i, "TypeArgWithinBound", x \o ":" \o bb[1] \o "." \o bb[2], T, Bot>> : bb \in BadBounds(T)}
+\* known-finding shape: the violated bound is the bound of a parameter of a class with tied parameters (a bound mentioning a sibling)
+TiedClass(c) == \E j \in DOMAIN CT[c].tp : CT[c].tp[j].b # <<>> /\ \E q \in DOMAIN CT[c].tp : HasVarNamed(CT[c].tp[j].b[1], CT[c].tp[q].n)
+ChkB(T, x) == {<<p, i, "TypeArgWithinBound" \o (IF TiedClass(bb[1]) THEN "/DependentParam" ELSE ""), x \o ":" \o bb[1] \o "." \o bb[2], T, Bot>> : bb \in BadBounds(T)}
 
 \* ---------------------------------------------------------------- members
 This(c) == Cls(c, [j \in DOMAIN CT[c].tp |-> Var(CT[c].tp[j].n, CT[c].tp[j].b)])
